@@ -268,6 +268,32 @@ theorem DistinctKeysD_iff (kvs : List (Key × J)) :
   | nil => simp [DistinctKeysD]
   | cons kv r ih => obtain ⟨k, v⟩ := kv; simp [DistinctKeysD, ih]
 
+theorem distinctBL_iff (xs : List J) : distinctBL xs = true ↔ ∀ x, x ∈ xs → distinctB x = true := by
+  induction xs with
+  | nil => simp [distinctBL]
+  | cons x xs ih => simp [distinctBL, ih]
+
+theorem distinctBD_iff (kvs : List (Key × J)) :
+    distinctBD kvs = true ↔ ∀ kv, kv ∈ kvs → distinctB kv.2 = true := by
+  induction kvs with
+  | nil => simp [distinctBD]
+  | cons kv r ih => obtain ⟨k, v⟩ := kv; simp [distinctBD, ih]
+
+theorem distinctB_iff (v : J) : distinctB v = true ↔ DistinctKeys v := by
+  induction v using J.ind with
+  | hs s => simp [distinctB, DistinctKeys]
+  | hi n => simp [distinctB, DistinctKeys]
+  | hn t => simp [distinctB, DistinctKeys]
+  | hk k => simp [distinctB, DistinctKeys]
+  | hl xs ih =>
+    simp only [distinctB, DistinctKeys, distinctBL_iff, DistinctKeysL_iff]
+    exact ⟨fun h x hx => (ih x hx).mp (h x hx), fun h x hx => (ih x hx).mpr (h x hx)⟩
+  | hd kvs ih =>
+    simp only [distinctB, DistinctKeys, Bool.and_eq_true, decide_eq_true_eq, distinctBD_iff,
+      DistinctKeysD_iff]
+    exact ⟨fun h => ⟨h.1, fun x hx => (ih x hx).mp (h.2 x hx)⟩,
+      fun h => ⟨h.1, fun x hx => (ih x hx).mpr (h.2 x hx)⟩⟩
+
 theorem KeysSortedL_iff (xs : List J) : KeysSortedL xs ↔ ∀ x, x ∈ xs → KeysSorted x := by
   induction xs with
   | nil => simp [KeysSortedL]
